@@ -206,6 +206,16 @@ def run(prog, rep, tier):
                 continue
             ptrs = ptr_closure(body, [p])
             uses = uses_of_ptr(body, ptrs)
+            # a closure that captures the pointer (a `with_handle(h, |w| { .. *ptr .. })` helper form) may use it whenever it runs: its construction counts
+            # as a use, so the null test has to come before the closure is even built
+            for bl_ in body.blocks:
+                if bl_.cleanup:
+                    continue
+                for si_, st_ in enumerate(bl_.stmts):
+                    if st_.kind == 'assign' and st_.rv.r == 'aggregate' and st_.rv.j.get('agg') == 'closure':
+                        caps_ = [o_ for o_ in st_.rv.ops if o_.place is not None and (o_.place[0] in ptrs or origins(body, [o_.place[0]], through_calls=False).locals & set(ptrs))]
+                        if caps_:
+                            uses = list(uses) + [(bl_.idx, si_, 'captured by a closure')]
             loads = loads_through(body, ptrs)
             if not uses and not loads:
                 continue
@@ -477,10 +487,38 @@ def run(prog, rep, tier):
         rep.ob('R20.5', ok, 'R20.5|%s|extract-via-caller-writers' % exi.nkey, msg, exi.loc())
         # R20.9 "hands each file's exact bytes to the writer the caller supplied for it": every part of the registered writer -- both callbacks *and the
         # context they are called with* -- is the one the per-file callback wrote into its FileWriter, not a value of the extraction call itself
+        from ..inline import inlined_body as _inl
+        exi0, exi = exi, _inl(prog, exi)      # the writer may be built by a constructor / conversion helper
         aggs = [(bl.idx, i, st) for bl in exi.blocks if not bl.cleanup for i, st in enumerate(bl.stmts)
                 if st.kind == 'assign' and st.rv.r == 'aggregate' and strip_generics(str(st.rv.j.get('adt', ''))).endswith('CallbackOutput')]
-        rep.floor('R20.9', len(aggs), 1, 'constructions of CallbackOutput in mla_roarchive_extract_internal')
         is_fw = lambda k, ob, bb: k == 'call' and ob.cmethod in ('assume_init', 'assume_init_read', 'assume_init_ref')
+        # a conversion that cannot be spliced (a trait impl: `TryFrom<FileWriter> for CallbackOutput`): judged in two halves -- inside it every field comes
+        # from its FileWriter parameter, and extract_internal calls it with the FileWriter the per-file callback filled
+        nconv = 0
+        if not aggs:
+            for hb in prog.crates['mla-bindings-c'].bodies:
+                if hb.kind == 'Closure' or hb.key == exi0.key:
+                    continue
+                haggs = [(bl.idx, i, st) for bl in hb.blocks if not bl.cleanup for i, st in enumerate(bl.stmts)
+                         if st.kind == 'assign' and st.rv.r == 'aggregate' and strip_generics(str(st.rv.j.get('adt', ''))).endswith('CallbackOutput')]
+                if not haggs:
+                    continue
+                sites = [cb_ for cb_ in exi.calls() if any(c_.key == hb.key for c_ in resolve_call(prog, exi, cb_.term)[0])]
+                if not sites:
+                    continue
+                nconv += len(haggs)
+                is_fwp = lambda k, ob, bb, hb=hb: k == 'param' and 'FileWriter' in hb.lty(ob)
+                for (bb, i, st) in haggs:
+                    for fname, op in zip(st.rv.j.get('fields') or [], st.rv.ops):
+                        why = []
+                        okf = op.place is not None and (must_derive(hb, op.place[0], is_fwp, why=why) or _through_tuples(hb, op.place[0], is_fwp))
+                        rep.ob('R20.9', okf, 'R20.9|%s|writer-field:%s|from-the-per-file-writer' % (hb.nkey, fname), '`%s` comes from the FileWriter handed to the conversion' % fname if okf else
+                               '`%s` of the registered writer is not taken from the FileWriter handed to the conversion (%s)' % (fname, '; '.join(why[:2]) or 'constant'), hb.loc(bb, i))
+                for cb_ in sites:
+                    oka = any(a.place is not None and must_derive(exi, a.place[0], is_fw) for a in cb_.term.args)
+                    rep.ob('R20.9', oka, 'R20.9|%s|conversion-receives-the-per-file-writer' % exi.nkey, 'the conversion is applied to the FileWriter the per-file callback filled' if oka else
+                           'the writer conversion is not applied to the FileWriter the per-file callback filled', exi.loc(cb_.idx))
+        rep.floor('R20.9', len(aggs) + nconv, 1, 'constructions of CallbackOutput for mla_roarchive_extract_internal')
         for (bb, i, st) in aggs:
             for fname, op in zip(st.rv.j.get('fields') or [], st.rv.ops):
                 why = []
